@@ -12,6 +12,7 @@ import (
 	"strings"
 	"testing"
 	"unicode"
+	"unicode/utf8"
 )
 
 // C06 — notices, list markers, hyphenation and spelling variants are ignored.
@@ -19,7 +20,8 @@ import (
 var (
 	vHeaderLike = regexp.MustCompile(`^[0-9A-Za-z.()]+[.:)]$`)
 	vNoticeLike = regexp.MustCompile(`(?i)copyright|^\W*\d{4}-(\d{2}|[a-z]{3})-\d{2}\W*$`)
-	vSplitWord  = regexp.MustCompile(`[A-Za-z]{5,}`)
+	vSplitWord  = regexp.MustCompile(`[\p{L}]{5,}`)
+	vSplitHard  = regexp.MustCompile(`[\p{L}]*[^\x00-\x7f][\p{L}]+|[\p{L}]{2,}--?[\p{L}]{2,}`)
 )
 
 var vMarkersStrict = []string{"1.", "12.", "a.", "B.", "iv.", "3.1.", "1.2.3.", "2)", "ii:", "IV.", "c:", "10)"}
@@ -86,6 +88,25 @@ func vTHyphen(r *rand.Rand, lines []string) ([]string, []int, int, int, map[stri
 		}
 		loc := locs[r.Intn(len(locs))]
 		p := loc[0] + 2 + r.Intn(loc[1]-loc[0]-3)
+		for !utf8.RuneStart(l[p]) {
+			p++ // never cut inside a multi-byte letter
+		}
+		if hard := vSplitHard.FindAllStringIndex(l, -1); len(hard) > 0 && r.Intn(2) == 0 {
+			// prefer the awkward places: directly after a non-ASCII letter, or directly
+			// after an inner hyphen ("non--\nexclusive" written as "non-" + "-\n")
+			h := hard[r.Intn(len(hard))]
+			w := l[h[0]:h[1]]
+			if i := strings.Index(w, "-"); i > 0 {
+				p = h[0] + i + 1
+			} else {
+				for j, c := range w {
+					if c > 127 && j+utf8.RuneLen(c) < len(w) {
+						p = h[0] + j + utf8.RuneLen(c)
+						break
+					}
+				}
+			}
+		}
 		rest := l[p:]
 		// The remainder of the physical line after the joined word is judged by the
 		// tokenizer as a line of its own (KF-C06-4): a marker-like first field is
